@@ -1460,14 +1460,19 @@ class Operation(_IRNode):
             or len(self.successors) != len(other.successors)
             or self.attributes != other.attributes
             or self.properties != other.properties
+            or self.result_types != other.result_types
         ):
             return False
         if (
             self.parent is not None
             and other.parent is not None
-            and context.get(self.parent) != other.parent
+            and context.get(self.parent, other.parent) != other.parent
         ):
             return False
+        # Add results of this operation to the context before looking at operands
+        # and regions: in a graph region they may be used before they are defined.
+        for result, other_result in zip(self.results, other.results):
+            context[result] = other_result
         if not all(
             context.get(operand, operand) == other_operand
             for operand, other_operand in zip(self.operands, other.operands)
@@ -1483,9 +1488,6 @@ class Operation(_IRNode):
             for region, other_region in zip(self.regions, other.regions)
         ):
             return False
-        # Add results of this operation to the context
-        for result, other_result in zip(self.results, other.results):
-            context[result] = other_result
 
         return True
 
@@ -2036,6 +2038,25 @@ class Block(_IRNode, IRWithUses, IRWithName):
         for op in self.ops:
             op.erase(safe_erase=safe_erase, drop_references=False)
 
+    def _add_to_structural_equivalence_context(
+        self,
+        other: Block,
+        context: dict[IRNode | SSAValue, IRNode | SSAValue],
+    ) -> None:
+        """
+        Map this block, its arguments and the results of its operations to their
+        counterparts in `other`.
+        This is done before the operations are compared, as a value may be used before
+        the operation that defines it: in graph regions, and in blocks that precede the
+        block that defines the value.
+        """
+        context[self] = other
+        for arg, other_arg in zip(self.args, other.args):
+            context[arg] = other_arg
+        for op, other_op in zip(self.ops, other.ops):
+            for result, other_result in zip(op.results, other_op.results):
+                context[result] = other_result
+
     def is_structurally_equivalent(
         self,
         other: IRNode,
@@ -2056,9 +2077,8 @@ class Block(_IRNode, IRWithUses, IRWithName):
         for arg, other_arg in zip(self.args, other.args):
             if arg.type != other_arg.type:
                 return False
-            context[arg] = other_arg
         # Add self to the context so Operations can check for identical parents
-        context[self] = other
+        self._add_to_structural_equivalence_context(other, context)
         if not all(
             op.is_structurally_equivalent(other_op, context)
             for op, other_op in zip(self.ops, other.ops)
@@ -2691,10 +2711,13 @@ class Region(_IRNode):
             return False
         if len(self.blocks) != len(other.blocks):
             return False
-        # register all blocks in the context so we can check whether ops have
-        # the corrects successors
+        # register all blocks, block arguments and operation results in the context
+        # so we can check whether ops have the correct successors and operands, even
+        # when they refer to a block or value that comes later in the region
         for block, other_block in zip(self.blocks, other.blocks):
-            context[block] = other_block
+            block._add_to_structural_equivalence_context(  # pyright: ignore[reportPrivateUsage]
+                other_block, context
+            )
         if not all(
             block.is_structurally_equivalent(other_block, context)
             for block, other_block in zip(self.blocks, other.blocks)
